@@ -19,6 +19,11 @@ from core import Ctx, finish
 
 
 def main(argv):
+    # reproducible set/dict iteration: re-exec once with a fixed hash seed
+    if os.environ.get("PYTHONHASHSEED") != "0":
+        env = dict(os.environ)
+        env["PYTHONHASHSEED"] = "0"
+        os.execve(sys.executable, [sys.executable, os.path.abspath(__file__)] + argv, env)
     if len(argv) >= 2 and argv[0] == "--replay":
         with open(argv[1]) as f:
             r = json.load(f)
